@@ -14,7 +14,12 @@ import json, os, re, shutil, subprocess, sys, glob, time
 ROOT = "/verif"
 HARNESS = f"{ROOT}/harness"
 TARGETS = {
+  "C01": [("jws_tokens", 60)],
+  "C05": [("entry_points", 90)],
+  "C10": [("did_strings", 45)],
   "C13": [("timestamp", 45)],
+  "C14": [("state_metadata", 45)],
+  "C17": [("iota_did", 45)],
 }
 
 def main():
@@ -27,6 +32,7 @@ def main():
     seed = 1  # libFuzzer: 0 means random
   forks = min(os.cpu_count() or 4, 16)
   env = dict(os.environ, CARGO_NET_OFFLINE="true")
+  env.pop("CARGO_TARGET_DIR", None)  # cargo-fuzz keeps its own target directory (harness/fuzz/target)
   stats = []
   rc = 0
   for target, secs in targets:
